@@ -377,7 +377,7 @@ impl Property for C01 {
         Isolation::Child
     }
     fn cases(&self, tier: Tier) -> u32 {
-        tier.pick(24_000, 600_000)
+        tier.pick(40_000, 600_000)
     }
     fn strategy(&self, tier: Tier) -> BoxedStrategy<Case> {
         let t = 0u8..NT as u8;
